@@ -520,6 +520,17 @@ func run(t *testing.T, kind string) {
 					op = ops.Op{K: "mkdirall", P: gen.Random(rt, m.s.alphabet(), 4, false, "deep"), Perm: 0o755}
 					rec.Class("deep-mkdirall")
 				}
+				if m.s.store != nil && len(tr.Dirs) > 1 && rapid.IntRange(0, 7).Draw(rt, "dirmove") == 0 {
+					// a whole directory moves (one call, many keys), usually interrupted by the store somewhere in the middle
+					var ds []string
+					for _, d := range tr.Dirs {
+						if d != "." {
+							ds = append(ds, d)
+						}
+					}
+					op = ops.Op{K: "rename", P: rapid.SampledFrom(ds).Draw(rt, "moved"), P2: gen.Random(rt, m.s.alphabet(), 2, false, "movedto")}
+					rec.Class("directory-move")
+				}
 				if m.s.store != nil {
 					// operations that write several keys get a fault half of the time, and later in their sequence of calls
 					odds, last := 3, 8
